@@ -159,6 +159,16 @@ def run_kani_units(units, prop, tier, scratch, jobs, only=None):
     return outcomes, info, preps
 
 
+def _has_const(src, name):
+    for kind in ('const', 'static'):
+        try:
+            src.find([(kind, name)])
+            return True
+        except LookupError:
+            pass
+    return False
+
+
 def kani_counterexample(unit, h, prep, scratch):
     """re-run a failed harness with concrete playback; returns (vals or None, description, log_tail)"""
     r = K.run_harness(unit, h, prep, scratch, playback=True)
@@ -229,7 +239,21 @@ def run_verus_unit(u, scratch, tier):
         missing = sorted(set(m for msg in c['frontend'] for m in re.findall(r'cannot find value `([A-Za-z_]\w*)` in this scope', msg)))
         added = []
         for name in missing:
-            for rel, src in list(asm.sources.items()):
+            cands = list(asm.sources.items())
+            if not any(_has_const(src_, name) for _rel, src_ in cands):
+                # not in the files the unit extracts from: a `pub const` imported from another crate of the workspace
+                # (`use rusty_bit_vec::MIN_INTEGER`) -- taken when the workspace defines exactly one top-level const of that name
+                import glob as _glob
+                found_ = []
+                for pth in _glob.glob(os.path.join(scratch.repo, '*', 'src', '**', '*.rs'), recursive=True):
+                    try:
+                        if re.search(r'\bconst\s+%s\b' % re.escape(name), open(pth).read()):
+                            found_.append(os.path.relpath(pth, scratch.repo))
+                    except OSError:
+                        pass
+                if len(found_) == 1:
+                    cands = [(found_[0], asm.source(found_[0]))]
+            for rel, src in cands:
                 for kind in ('const', 'static'):
                     try:
                         item, _parents = src.find([(kind, name)])
